@@ -96,6 +96,8 @@ type Cluster struct {
 	Corrupting    bool // corruption faults are active: server-side observers are silent
 	ChunkLen      int  // compression chunk size used for responses (0 = Hadoop default)
 	PermuteMulti  bool // permute result order inside multi responses
+	// RowNonce attributes a Get that carries no time range to an operation
+	RowNonce func(row []byte) uint64
 	// master procedures and snapshots
 	Procs    map[uint64]*Proc
 	NextProc uint64
